@@ -75,7 +75,7 @@ def run(ctx):
         forget = [e for e in fx.effects if e.kind == "RETAIN" and e.lst == "AB" and ktx.Analysis._retain_removes_key(e) == k]
         look = [i for i, e in enumerate(fx.path.events) if e.kind == "call" and method_name(e.a) == "get" and "HashMap" in e.a]
         ck.ob("C08-R1", NP, "pressed-key-forgotten-from-mapped_absorbed_keys-before-any-lookup", len(forget) == 1 and (not look or forget[0].pos < look[0]))
-    ck.floor("C08-R1", "newly_press-return-paths", n, 4)
+    ck.floor("C08-R1", "newly_press-return-paths", n, 1)
     # ---------------- R2 absorbed argument
     # the local passed as 3rd argument of is_supported
     absorbed_local = None
